@@ -144,6 +144,12 @@ theorem untouches_delIf {ν : Type} {T now : Nat} {k k' : Key} (td : TD Key ν) 
   rw [delIf_eq_applyOp T now]
   exact untouches_applyOp _ _ hne
 
+theorem settled_delIf {ν : Type} {T now : Nat} {td : TD Key ν} (h : Settled T now td) (k : Key) :
+    Settled T now (delIf td k) := by
+  refine ⟨?_, ?_, fun d hd => h.notDue d (by rwa [delIf_deadline] at hd)⟩
+  · rw [delIf_eq_applyOp T now]; exact applyOp_wf h.wf _
+  · rw [delIf_eq_applyOp T now]; exact applyOp_bounded h.bounded _
+
 theorem feed_untouches {T now : Nat} {sp : TD Key Msg} {req : Msg} {k : Key}
     (hne : blockKey req ≠ k) : Untouches T now k sp (feedAndTake T now sp req).1 := by
   cases hb : req.block1 with
@@ -171,10 +177,13 @@ theorem extract_untouches {T now : Nat} {c : TD Key Resp} {m : Msg} {render : Ms
     | ok a =>
       rw [extract_fresh hf hr]
       split
-      · exact untouches_set _ _ hne
+      · exact (untouches_delIf _ hne).trans (untouches_set _ _ hne)
       · exact untouches_delIf _ hne
     | error code =>
       rw [extract_fresh_raised hf hr]
+      exact untouches_delIf _ hne
+    | junk =>
+      rw [extract_fresh_junk hf hr]
       exact untouches_delIf _ hne
   · have hf' : isFresh m = false := by simpa using hf
     obtain ⟨b, hb, hb0⟩ := later_of_not_fresh hf'
@@ -459,6 +468,7 @@ theorem served_linv {T t0 : Nat} (hT : 0 < T) {st : RState} (h : RInv T t0 st) (
   rcases hsrc with ⟨hf, ha⟩ | ⟨hf, hl⟩
   · rw [extract_fresh hf ha]
     simp only [hchunk, ↓reduceIte]
+    have hset := settled_delIf hset (blockKey m)
     obtain ⟨D, hD, h1, h2⟩ := deathTime_set hset (blockKey m) a
     exact ⟨D, h1, h2, linv_of_deathTime (settled_set hset _ _) hD (by omega),
       by simp [TD.set, accessed_items, alookup_ainsert_self]⟩
